@@ -8,7 +8,14 @@
 //
 //   h_life <scenario-file> <scratch-dir> <parallel>
 // scenario line:  <id> <clock:sys|tsc> <gate:0|1|2> <sync:turn|free> <soft:0|1> <sleep_us:-1|n> <sh:0|1> <named:0|1>
-//                 <wait:0|1 = BackendOptions::wait_for_queues_to_empty_before_exit> step...
+//                 <wait:0|1 = BackendOptions::wait_for_queues_to_empty_before_exit>
+//                 <q:0|1|2|3 = queue exercise: 1 padded statements (> half a queue node each, so the producer moves
+//                  to a new, larger node) with transit_events_hard_limit 1; 2 the thread shrinks its queue before
+//                  each statement but its first, hard limit 1; 3 as 2 with default limits, after a pause that lets
+//                  the backend drain the old node> step...
+//   named: 0 no logger named in SignalHandlerOptions, 1 the logger that exists, 2 a name no logger has (the handler
+//          must fall back to the first valid logger)
+// All threads use FrontendOptions with initial_queue_capacity 4096 (so that growth / shrink are within reach).
 //   steps: S<t> start  L<t> log  P<t> stop  F<w> worker w returns and is joined  X<t>:<code> exit(code)  R return
 //          from main   G<t>:<signum>:<flavour>  signal at thread t; flavour r raise(), f real fault / abort(),
 //          k<u> pthread_kill from thread u while t is parked between two statements, p process-directed kill that
@@ -46,7 +53,19 @@ namespace
 constexpr int MAXT = 3;
 constexpr int MAXSTEP = 64;
 constexpr int MAXEV = 256;
-constexpr int TEXTSZ = 24 * 1024;
+constexpr int TEXTSZ = 256 * 1024;
+constexpr size_t PADLEN = 2200; // statement record > half of the 4096-byte queue node
+
+struct SmallQueueOptions
+{
+  static constexpr quill::QueueType queue_type = quill::QueueType::UnboundedBlocking;
+  static constexpr size_t initial_queue_capacity = 4096;
+  static constexpr uint32_t blocking_queue_retry_interval_ns = 800;
+  static constexpr size_t unbounded_queue_max_capacity = 2ull * 1024u * 1024u * 1024u;
+  static constexpr quill::HugePagesPolicy huge_pages_policy = quill::HugePagesPolicy::Never;
+};
+using FrontendT = quill::FrontendImpl<SmallQueueOptions>;
+using LoggerT = quill::LoggerImpl<SmallQueueOptions>;
 
 enum EvKind : int
 {
@@ -100,15 +119,17 @@ struct Scenario
   bool soft1{false};
   long sleep_us{-1};
   bool sh{true};
-  bool named{false};
+  int named{0};
   bool wait{true};
+  int q{0};
   std::vector<Step> steps;
 };
 
 // ---------------------------------------------------------------- child state
 Shm* g_shm = nullptr;
 Scenario const* g_scn = nullptr;
-quill::Logger* g_logger = nullptr;
+LoggerT* g_logger = nullptr;
+std::string g_pad;
 std::atomic<bool> g_gate_open{true};
 std::atomic<bool> g_starting{false}; // Backend::start in progress: the gate is already closed, is_running() not yet true
 int g_nlog[MAXT] = {0, 0, 0};
@@ -141,6 +162,7 @@ int emit(int kind, int t, int a = 0, int b = 0, int c = 0, char const* txt = nul
   if (txt && len > 0)
   {
     uint32_t off = g_shm->ntext.fetch_add(static_cast<uint32_t>(len));
+    e.len = -1; // does not fit: reported as such, never as an empty file
     if (off + len <= TEXTSZ)
     {
       std::memcpy(g_shm->text + off, txt, len);
@@ -229,6 +251,11 @@ void do_start(int t)
   quill::BackendOptions bo;
   if (g_scn->sleep_us >= 0) bo.sleep_duration = std::chrono::microseconds{g_scn->sleep_us};
   if (g_scn->soft1) bo.transit_events_soft_limit = 1;
+  if (g_scn->q == 1 || g_scn->q == 2)
+  {
+    bo.transit_events_soft_limit = 1;
+    bo.transit_events_hard_limit = 1;
+  }
   bo.wait_for_queues_to_empty_before_exit = g_scn->wait;
   bo.error_notifier = [](std::string const&) {};
   // the hold gate is closed BEFORE the backend starts, so that the very first statement it processes holds it
@@ -242,8 +269,9 @@ void do_start(int t)
   {
     quill::SignalHandlerOptions so;
     so.timeout_seconds = 5;
-    if (g_scn->named) so.logger = "L";
-    quill::Backend::start<quill::FrontendOptions>(bo, so);
+    if (g_scn->named == 1) so.logger = "L";
+    if (g_scn->named == 2) so.logger = "no_such_logger";
+    quill::Backend::start<SmallQueueOptions>(bo, so);
   }
   else
   {
@@ -270,8 +298,14 @@ void do_stop(int t)
 void do_log(int t)
 {
   int const n = ++g_nlog[t];
+  if (n > 1 && g_scn->q >= 2)
+  {
+    if (g_scn->q == 3) nap(400 + static_cast<unsigned>(g_scn->sleep_us > 0 ? g_scn->sleep_us : 0));
+    size_t const cap = FrontendT::get_thread_local_queue_capacity();
+    if (cap >= 2048) FrontendT::shrink_thread_local_queue(cap / 2);
+  }
   emit(EV_LOGCALL, t, n);
-  LOG_INFO(g_logger, "s {} {}", t, n);
+  LOG_INFO(g_logger, "s {} {}{}", t, n, std::string_view{g_pad});
   emit(EV_LOGRET, t, n);
 }
 
@@ -282,6 +316,13 @@ void do_log(int t)
 }
 
 pthread_t g_main_pthread;
+// the handled signal neither ended the process nor will it: leave with a status nobody asked for
+[[noreturn]] void still_alive(unsigned wait_ms)
+{
+  for (unsigned i = 0; i < wait_ms; ++i) nap(1000);
+  ::_exit(42);
+}
+
 volatile int g_zero = 0;
 volatile int* volatile g_nullp = nullptr;
 
@@ -296,7 +337,7 @@ void do_signal(Step const& s, int me)
     g_shm->ending.store(1);
     pthread_t const target = (s.t == 0) ? g_main_pthread : g_threads[s.t]->native_handle();
     pthread_kill(target, sig);
-    park_forever();
+    still_alive(3000);
   }
   emit(EV_ENDCALL, s.t, 3, sig, s.flavour);
   if (s.flavour == 'p')
@@ -309,7 +350,7 @@ void do_signal(Step const& s, int me)
     ::kill(::getpid(), sig);
     nap(1500);
     pthread_sigmask(SIG_SETMASK, &old, nullptr);
-    park_forever();
+    still_alive(100);
   }
   g_shm->ending.store(1);
   if (s.flavour == 'f')
@@ -334,7 +375,7 @@ void do_signal(Step const& s, int me)
   }
   std::raise(sig);
   // a handled fatal signal does not come back here; SIGINT/SIGTERM exit inside the handler
-  park_forever();
+  still_alive(100);
 }
 
 bool is_lifecycle(Step const& s) { return s.op != 'L'; }
@@ -448,8 +489,9 @@ int child_main(Scenario const& sc, Shm* shm, std::string const& dir)
     if (s.op == 'G' && s.flavour == 'p') g_block_sig = s.a;
 
   std::vector<std::shared_ptr<quill::Sink>> sinks;
-  if (sc.gate) sinks.push_back(quill::Frontend::create_or_get_sink<GateSink>("gate", sc.gate));
-  sinks.push_back(quill::Frontend::create_or_get_sink<quill::FileSink>(
+  if (sc.q == 1) g_pad = " " + std::string(PADLEN, 'p');
+  if (sc.gate) sinks.push_back(FrontendT::create_or_get_sink<GateSink>("gate", sc.gate));
+  sinks.push_back(FrontendT::create_or_get_sink<quill::FileSink>(
     "log.txt",
     []()
     {
@@ -458,7 +500,7 @@ int child_main(Scenario const& sc, Shm* shm, std::string const& dir)
       return cfg;
     }(),
     quill::FileEventNotifier{}));
-  g_logger = quill::Frontend::create_or_get_logger(
+  g_logger = FrontendT::create_or_get_logger(
     "L", std::move(sinks), quill::PatternFormatterOptions{"%(message)"},
     sc.tsc ? quill::ClockSourceType::Tsc : quill::ClockSourceType::System);
 
@@ -494,14 +536,13 @@ bool parse_scenario(std::string const& line, Scenario& sc)
 {
   std::istringstream is(line);
   std::string clock, sync, tok;
-  int soft, sh, named, wait;
-  if (!(is >> sc.id >> clock >> sc.gate >> sync >> soft >> sc.sleep_us >> sh >> named >> wait)) return false;
+  int soft, sh, wait;
+  if (!(is >> sc.id >> clock >> sc.gate >> sync >> soft >> sc.sleep_us >> sh >> sc.named >> wait >> sc.q)) return false;
   sc.wait = wait != 0;
   sc.tsc = (clock == "tsc");
   sc.free_mode = (sync == "free");
   sc.soft1 = soft != 0;
   sc.sh = sh != 0;
-  sc.named = named != 0;
   while (is >> tok)
   {
     Step s{};
@@ -637,7 +678,10 @@ void report(Scenario const& sc, Slot& sl, int status, bool timed_out, std::strin
     if (e.kind.load() == EV_STOPRET)
     {
       out += ",\"lines\":";
-      json_lines(out, sl.shm->text + e.off, static_cast<size_t>(e.len));
+      if (e.len < 0)
+        out += "null";
+      else
+        json_lines(out, sl.shm->text + e.off, static_cast<size_t>(e.len));
     }
     out.push_back('}');
   }
